@@ -325,17 +325,16 @@ def first(F, R):
             continue
         ra = [bb for bb, t in calls_where(b, lambda p, t: p.endswith('ResourceStorage::<T>::remove_and_add'))
               if (self_field_of_call(b, b.blocks[bb]['term'], 0) or '').endswith('.' + field)]
-        it = [bb for bb, t in calls_to(b, item_osp, suffix=False)]
-        # when two storages hold the same item type (Track: sub_tracks), pick the call whose loop iterates this field
-        it2 = []
-        for bb in it:
-            recv = describe(b, b.blocks[bb]['term']['args'][0])
-            it2.append(bb)
+        # the per-item call: directly inside a loop over the storage, or in the closure handed to an iterator consumer
+        from ..rules import op_sites
+        it2 = op_sites(F, b, lambda p, t: p == item_osp)
+        direct = set(bb for bb, t in calls_to(b, item_osp, suffix=False))
         if not R.check(len(ra) == 1 and len(it2) >= 1, 'B.C07.first', 'site:' + key,
                        '%s: remove_and_add on %s (%d) or the on_start_processing loop (%d) not found' % (fn, field, len(ra), len(it2))):
             continue
         n += 1
-        ok = all(b.in_loop(bb) for bb in it2) and not b.in_loop(ra[0])
+        ok = all((b.in_loop(bb) if bb in direct else 'for_each' in (callee_path(b.blocks[bb]['term']) or '')) for bb in it2) \
+            and not b.in_loop(ra[0])
         ok = ok and any(order_ok(b, ra, [bb]) for bb in it2)
         R.check(ok, 'B.C07.first', key,
                 '%s: the storage %s is not refilled before its items receive on_start_processing (a command issued before '
